@@ -584,6 +584,9 @@ func main() {
 		hs := r.U64() % 1000000
 		fl := []int{0, 3, 4, 2, 3, 1, 3, 4}[i%8]
 		bl := 3 + r.Intn(*blocks)
+		if fl == 1 {
+			bl = 26 + r.Intn(8) // past a session boundary: waiting validators really start unstaking
+		}
 		d := filepath.Join(base, fmt.Sprintf("h%d", hs))
 		os.RemoveAll(d)
 		must(os.MkdirAll(d, 0o755))
